@@ -41,9 +41,9 @@ func (e *Engine) counterexample(j *job, prelude, dir, repo string, timeoutS int)
 	fmt.Fprintf(&b, "obligation: %s\nkind: %s\nposition: %s\nclause: %s\nsolver: %s status: %s (%d ms, %d queries)\nvc: %s\n",
 		j.obl.Name, j.obl.Kind, j.obl.Pos, j.obl.Text, j.res.Solver, j.res.Status, j.res.Ms, j.queries, j.res.File)
 	fmt.Fprintf(&b, "solver output:\n%s\n", trunc(j.res.Output, 4000))
-	found := e.replay(j, prelude, repo, timeoutS, &b)
+	found, how := e.replay(j, prelude, repo, timeoutS, &b)
 	if found {
-		b.WriteString("result: failing-input-found (the real function panics on the input above)\n")
+		b.WriteString("result: failing-input-found (" + how + ")\n")
 	} else {
 		b.WriteString("result: no-failing-input-found\n")
 	}
@@ -87,15 +87,15 @@ func replayClass(t types.Type) string {
 var paramDeclRe = regexp.MustCompile(`^\(declare-const (p_[^ ]+![0-9]+) `)
 
 // replay: model -> arguments -> run of the real function. Reports whether the real function panicked.
-func (e *Engine) replay(j *job, prelude, repo string, timeoutS int, log *strings.Builder) bool {
+func (e *Engine) replay(j *job, prelude, repo string, timeoutS int, log *strings.Builder) (bool, string) {
 	fn := j.un.fn
 	if fn == nil || fn.Parent() != nil || fn.Pkg == nil || len(fn.FreeVars) > 0 {
 		log.WriteString("replay: not attempted (closure or synthetic unit)\n")
-		return false
+		return false, ""
 	}
 	if j.res.Status != "sat" {
 		log.WriteString("replay: not attempted (the solver gave no model: status " + j.res.Status + ")\n")
-		return false
+		return false, ""
 	}
 	// parameters and their SMT constants (declared in order at the start of the unit)
 	var consts []string
@@ -106,7 +106,7 @@ func (e *Engine) replay(j *job, prelude, repo string, timeoutS int, log *strings
 	}
 	if len(consts) < len(fn.Params) {
 		log.WriteString("replay: not attempted (parameter constants not found)\n")
-		return false
+		return false, ""
 	}
 	ct := e.contractFor(fn)
 	var ps []replayParam
@@ -114,13 +114,13 @@ func (e *Engine) replay(j *job, prelude, repo string, timeoutS int, log *strings
 		c := replayClass(p.Type())
 		if c == "" {
 			fmt.Fprintf(log, "replay: not attempted (parameter %s of type %s cannot be built from a model)\n", p.Name(), p.Type())
-			return false
+			return false, ""
 		}
 		if c == "ptr" && ct != nil {
 			for _, r := range ct.Requires {
 				if strings.Contains(r.Text, p.Name()+".") || strings.Contains(r.Text, "("+p.Name()+")") || strings.Contains(r.Text, "*"+p.Name()) {
 					fmt.Fprintf(log, "replay: not attempted (the precondition constrains the object behind %s)\n", p.Name())
-					return false
+					return false, ""
 				}
 			}
 		}
@@ -167,7 +167,7 @@ func (e *Engine) replay(j *job, prelude, repo string, timeoutS int, log *strings
 	}
 	dir, err := os.MkdirTemp("", "wv_replay_")
 	if err != nil {
-		return false
+		return false, ""
 	}
 	defer os.RemoveAll(dir)
 	ask := func(extra []string, n int) ([]string, bool) {
@@ -196,7 +196,7 @@ func (e *Engine) replay(j *job, prelude, repo string, timeoutS int, log *strings
 	}
 	if !ok {
 		log.WriteString("replay: the solver gave no model on the second run\n")
-		return false
+		return false, ""
 	}
 	// arguments as Go expressions
 	pkg := fn.Pkg.Pkg
@@ -209,6 +209,7 @@ func (e *Engine) replay(j *job, prelude, repo string, timeoutS int, log *strings
 		return p.Name()
 	}
 	var args, descr []string
+	var ins []concVal
 	k := 0
 	for _, p := range ps {
 		ty := types.TypeString(p.typ, qual)
@@ -218,18 +219,22 @@ func (e *Engine) replay(j *job, prelude, repo string, timeoutS int, log *strings
 			k++
 			args = append(args, fmt.Sprintf("%s(%s)", ty, v))
 			descr = append(descr, fmt.Sprintf("%s = %s", p.name, v))
+			ins = append(ins, concVal{class: "int", s: v})
 		case "bool":
 			v := vals[k]
 			k++
 			args = append(args, fmt.Sprintf("%s(%s)", ty, v))
 			descr = append(descr, fmt.Sprintf("%s = %s", p.name, v))
+			ins = append(ins, concVal{class: "bool", s: v})
 		case "ptr":
 			v := vals[k]
 			k++
 			if v == "0" {
 				args = append(args, fmt.Sprintf("(%s)(nil)", ty))
 				descr = append(descr, p.name+" = nil")
+				ins = append(ins, concVal{class: "nilable", isNil: true})
 			} else {
+				ins = append(ins, concVal{class: "nilable"})
 				args = append(args, fmt.Sprintf("new(%s)", types.TypeString(p.typ.Underlying().(*types.Pointer).Elem(), qual)))
 				descr = append(descr, p.name+" = fresh zero value")
 			}
@@ -247,15 +252,18 @@ func (e *Engine) replay(j *job, prelude, repo string, timeoutS int, log *strings
 			}
 			if ln < 0 || ln > replayMaxLen {
 				fmt.Fprintf(log, "replay: not attempted (model length %d of %s)\n", ln, p.name)
-				return false
+				return false, ""
 			}
 			bs := make([]string, 0, ln)
+			raw := make([]byte, 0, ln)
 			for i := 0; i < ln; i++ {
 				if i < have {
 					b, _ := strconv.Atoi(vals[k+i])
 					bs = append(bs, strconv.Itoa(b&0xff))
+					raw = append(raw, byte(b&0xff))
 				} else {
 					bs = append(bs, "0")
+					raw = append(raw, 0)
 				}
 			}
 			k += have
@@ -263,6 +271,7 @@ func (e *Engine) replay(j *job, prelude, repo string, timeoutS int, log *strings
 			if p.class == "bytes" && isNil && ln == 0 {
 				lit = "[]byte(nil)"
 			}
+			ins = append(ins, concVal{class: p.class, b: raw, isNil: p.class == "bytes" && isNil && ln == 0})
 			args = append(args, fmt.Sprintf("%s(%s)", ty, lit))
 			show := lit
 			if len(show) > 300 {
@@ -283,11 +292,16 @@ func (e *Engine) replay(j *job, prelude, repo string, timeoutS int, log *strings
 	src.WriteString(")\n\n")
 	fmt.Fprintf(&src, "// replay of %s\nfunc TestWVReplay(t *testing.T) {\n", j.obl.Name)
 	src.WriteString("\tdefer func() {\n\t\tif r := recover(); r != nil {\n\t\t\tfmt.Printf(\"WV-REPLAY-PANIC: %v\\n\", r)\n\t\t\tfmt.Printf(\"%s\\n\", debug.Stack())\n\t\t}\n\t}()\n")
-	fmt.Fprintf(&src, "\t%s\n\tfmt.Println(\"WV-REPLAY-RETURNED\")\n}\n", call)
+	lhs, printers := resultPrinter(fn)
+	fmt.Fprintf(&src, "\t%s%s\n\tfmt.Println(\"WV-REPLAY-RETURNED\")\n", lhs, call)
+	for _, ps := range printers {
+		fmt.Fprintf(&src, "\t%s\n", ps)
+	}
+	src.WriteString("}\n")
 	pos := fn.Prog.Fset.Position(fn.Pos())
 	if !pos.IsValid() {
 		log.WriteString("replay: not attempted (no source position)\n")
-		return false
+		return false, ""
 	}
 	pkgDir := filepath.Dir(pos.Filename)
 	fmt.Fprintf(log, "replay-input: %s\nreplay-package: %s\nreplay-dir: %s\n--- replay test ---\n%s--- end replay test ---\n", strings.Join(descr, "; "), pkg.Path(), pkgDir, src.String())
@@ -295,9 +309,25 @@ func (e *Engine) replay(j *job, prelude, repo string, timeoutS int, log *strings
 	fmt.Fprintf(log, "replay-output:\n%s\n", trunc2(out, 3000))
 	if err != nil && !strings.Contains(out, "WV-REPLAY-") {
 		fmt.Fprintf(log, "replay: the test could not be run: %v\n", err)
-		return false
+		return false, ""
 	}
-	return strings.Contains(out, "WV-REPLAY-PANIC")
+	if strings.Contains(out, "WV-REPLAY-PANIC") {
+		return true, "the real function panics on the input above"
+	}
+	// a postcondition: evaluate the clause on what the real function returned
+	if m := ensuresNameRe.FindStringSubmatch(j.obl.Name); m != nil && strings.Contains(out, "WV-REPLAY-RETURNED") && fn.Signature.Results().Len() > 0 {
+		outs := parseRealResults(out, fn.Signature.Results().Len())
+		switch v := e.evalEnsuresOnReal(fn, m[1], ins, outs, prelude, timeoutS, log); v {
+		case "violated":
+			for _, l := range resultLines(out) {
+				fmt.Fprintf(log, "replay-expect: %s\n", l)
+			}
+			return true, "the real function returns, on the input above, results for which the clause ensures#" + m[1] + " is false"
+		default:
+			fmt.Fprintf(log, "replay: the clause evaluated on the real results of this input: %s\n", v)
+		}
+	}
+	return false, ""
 }
 
 func trunc2(s string, n int) string {
@@ -426,10 +456,41 @@ func cmdReplay(args []string) int {
 		}
 		return ""
 	}
-	out, _ := runReplayTest(repo, field("replay-package"), field("replay-dir"), src)
+	pkgDir := field("replay-dir")
+	{
+		// the package directory in the tree the replay is run against (the file may have been written for a scratch copy)
+		c := exec.Command("go", "list", "-f", "{{.Dir}}", field("replay-package"))
+		c.Dir = repo
+		c.Env = append(os.Environ(), "GOFLAGS=-mod=mod", "GOPROXY=off", "GOSUMDB=off", "GOTOOLCHAIN=local")
+		if o, err := c.Output(); err == nil && strings.TrimSpace(string(o)) != "" {
+			pkgDir = strings.TrimSpace(string(o))
+		}
+	}
+	out, _ := runReplayTest(repo, field("replay-package"), pkgDir, src)
 	fmt.Printf("=== re-run on %s ===\n%s\n", repo, out)
 	if strings.Contains(out, "WV-REPLAY-PANIC") {
 		return 1
+	}
+	// a recorded postcondition violation: the results that made the clause false are returned again
+	var expect []string
+	for _, l := range strings.Split(text, "\n") {
+		if strings.HasPrefix(l, "replay-expect: ") {
+			expect = append(expect, strings.TrimPrefix(l, "replay-expect: "))
+		}
+	}
+	if len(expect) > 0 {
+		got := resultLines(out)
+		same := len(got) == len(expect)
+		for i := range expect {
+			if same && got[i] != expect[i] {
+				same = false
+			}
+		}
+		if same {
+			fmt.Println("the real function returns the recorded results again: the clause is still violated on this input")
+			return 1
+		}
+		fmt.Println("the real function no longer returns the recorded results on this input")
 	}
 	return 0
 }
